@@ -1026,7 +1026,7 @@ def bounded_whole_graph(ctx) -> Dict[str, Any]:
     from hv import rt
 
     n = 40 if not ctx.thorough else 600
-    tidsets = [(1, 8), (7, 1), (103, 110), (2, 5), (1,), (3, 2, 1)]
+    tidsets = [(1, 8), (7, 1), (103, 110), (2, 5), (1,), (3, 2, 1), (3_000_000_000, 4242), (2**32 - 3, 5)]  # the last two: hashed / unsigned 32-bit thread ids
     res = rt.pmap(whole_graph_case, [(ctx.seed * 97 + i, tidsets[i % len(tidsets)], i % 4 == 3) for i in range(n)], ctx.procs)
     res += rt.pmap(two_rank_objects_case, [ctx.seed * 89 + i for i in range(n // 4)], ctx.procs)
     return rt.summarise(res, f"{PROP}.whole_graph", f"{n} Kineto files with one to three host threads (thread ids 1, 2, 3, 5, 7, 8, 103, 110 in several orders), each thread a random properly nested family of 2-6 spans on an "
